@@ -88,16 +88,16 @@ def depth_of(s):
 
 
 def plan(ctx):
-    L1, L2, L3 = ctx.pick((3, 4, 3), (4, 5, 4))
+    L1, L2, L3 = ctx.pick((3, 3, 3), (3, 5, 3))
     stages = [
         ('shard_enum', [('cat', 'A_CAT', L1, i, 32) for i in range(32)] +
                        [('core', 'A_CORE', L2, i, 32) for i in range(32)] +
                        [('tok', 'A_TOK', 3, i, 32) for i in range(32)] +
                        [('envname', 'A_ENV', 3, i, 8) for i in range(8)] +
                        ([('tokcore', 'A_TOK_CORE', 4, i, 64) for i in range(64)] if ctx.thorough else [])),
-        ('shard_random', [('rnd', ctx.pick(1200, 40000), i) for i in range(16)]),
-        ('shard_mutations', [('mut', ctx.pick(5, 40), i) for i in range(16)]),
-        ('shard_chains', [('chain', ctx.pick(25, 600), i) for i in range(16)]),
+        ('shard_random', [('rnd', ctx.pick(900, 40000), i) for i in range(16)]),
+        ('shard_mutations', [('mut', ctx.pick(4, 40), i) for i in range(16)]),
+        ('shard_chains', [('chain', ctx.pick(14, 600), i) for i in range(16)]),
         ('shard_runs', [('runs', i, 16, ctx.pick((1025,), RUN_LENGTHS)) for i in range(16)]),
     ]
     return stages
